@@ -2,7 +2,8 @@
   SrcTieFitSpec — the spline specification types of `spline/fit.hpp` (namespace `spline_specs`), regenerated from the
   C++ source on every run (`SmoothModel/Gen/FitSpecSrc.lean`, written by tools/gen_fitspec.py), ARE the `Fit.Spec`
   values the theorems of C14 are about: `Degree`, `OptDeg` (−1 = no optimisation), `InnCnt`, and the boundary derivative
-  orders `LeftDeg` / `RghtDeg` — for every value of the template parameters.
+  orders `LeftDeg` / `RghtDeg` — for every value of the template parameters; and `detail::splinespec_max_deriv`, `N_coef`,
+  `N_eq` of `spline/detail/fit_impl.hpp` are the model's `Spec.D`, `Spec.nCoef`, `Spec.nEq` for every specification.
 
   Theorem prefix: `fitspec_`.
 -/
@@ -57,5 +58,42 @@ theorem fitspec_minDerivative (K O P : Nat) : Agree (Fit.minDerivative K O P) (F
 theorem fitspec_defaults :
     FitSpecSrc.FixedDerCubic_defaults = [("P1", "2"), ("P2", "P1")]
     ∧ FitSpecSrc.MinDerivative_defaults = [("K", "6"), ("O", "3"), ("P", "3")] := ⟨rfl, rfl⟩
+
+/-! ### `detail/fit_impl.hpp`: `splinespec_max_deriv`, `N_coef`, `N_eq` -/
+
+theorem fitspec_foldl_max (l : List Nat) (a : Nat) :
+    ((l.foldl Nat.max a : Nat) : Int) = (l.map Int.ofNat).foldl max (a : Int) := by
+  induction l generalizing a with
+  | nil => rfl
+  | cons x xs ih =>
+    simp only [List.foldl_cons, List.map_cons]
+    rw [ih]
+    congr 1
+    show ((Nat.max a x : Nat) : Int) = max (a : Int) (Int.ofNat x)
+    simp only [Nat.max_def, Int.ofNat_eq_natCast]
+    split <;> omega
+
+/-- `detail::splinespec_max_deriv<SS>()` is the model's `Spec.D`, for every specification type -/
+theorem fitspec_maxDeriv (s : Fit.Spec) (r : RawSpec) (h : Agree s r) : (s.D : Int) = FitSpecSrc.maxDeriv r := by
+  obtain ⟨_, _, hI, hL, hR⟩ := h
+  unfold Fit.Spec.D FitSpecSrc.maxDeriv
+  rw [List.foldl_append, fitspec_foldl_max, fitspec_foldl_max, hL, hR, ← hI]
+  congr 2
+  omega
+
+/-- `N_coef` and `N_eq` of `fit_spline_1d` as the model counts them, for `N ≥ 1` segments -/
+theorem fitspec_counts (s : Fit.Spec) (r : RawSpec) (h : Agree s r) (N : Nat) (hN : 1 ≤ N) :
+    (s.nCoef N : Int) = FitSpecSrc.nCoef r N ∧ (s.nEq N : Int) = FitSpecSrc.nEq r N := by
+  obtain ⟨hK, _, hI, hL, hR⟩ := h
+  have hl : (r.LeftDeg.length : Int) = s.leftDeg.length := by rw [← hL, List.length_map]
+  have hr : (r.RghtDeg.length : Int) = s.rghtDeg.length := by rw [← hR, List.length_map]
+  constructor
+  · unfold Fit.Spec.nCoef FitSpecSrc.nCoef
+    rw [← hK]; simp only [Int.natCast_mul, Int.natCast_add, Int.cast_ofNat_Int]
+  · unfold Fit.Spec.nEq FitSpecSrc.nEq
+    rw [hl, hr, ← hI]
+    by_cases h0 : 0 ≤ s.innCnt <;> by_cases h1 : 0 < s.innCnt <;>
+      simp only [h0, h1, if_true, if_false, Int.natCast_add, Int.natCast_mul, Int.natCast_sub hN,
+        Int.toNat_of_nonneg, Int.natCast_zero, Int.natCast_one] <;> try omega
 
 end SrcTieFitSpec
